@@ -22,9 +22,10 @@ import (
 )
 
 type RefIn struct {
-	N string    `json:"n"`
-	I uint64    `json:"i"`
-	V [3]string `json:"v"` // kind d|v|p|s ; a, b: hex of the hash bytes (full size) or the symref target
+	N        string    `json:"n"`
+	I        uint64    `json:"i"`
+	V        [3]string `json:"v"`        // kind d|v|p|s ; a, b: hex of the hash bytes (full size) or the symref target
+	Oversize bool      `json:"oversize"` // deliberately larger than a block: the writer must refuse it
 }
 
 type LogIn struct {
@@ -257,7 +258,7 @@ func (r *runner) exec(dump string) map[string]interface{} {
 			}
 			err := w.AddRef(&rec)
 			ro := refOut{r.k(x.N), x.I, x.V}
-			calls = append(calls, map[string]interface{}{"kind": "ref", "rec": ro, "ok": err == nil, "emptyname": x.N == "", "inrange": x.I >= c.Min && x.I <= c.Max})
+			calls = append(calls, map[string]interface{}{"kind": "ref", "rec": ro, "ok": err == nil, "emptyname": x.N == "", "inrange": x.I >= c.Min && x.I <= c.Max, "oversize": x.Oversize})
 			if err == nil {
 				accRefs = append(accRefs, ro)
 			}
@@ -270,7 +271,7 @@ func (r *runner) exec(dump string) map[string]interface{} {
 			err := w.AddLog(&rec)
 			lo := r.normLog(x)
 			single := !strings.Contains(strings.TrimSpace(x.Msg), "\n")
-			calls = append(calls, map[string]interface{}{"kind": "log", "rec": lo, "ok": err == nil, "emptyname": x.N == "", "single": single || x.Del})
+			calls = append(calls, map[string]interface{}{"kind": "log", "rec": lo, "ok": err == nil, "emptyname": x.N == "", "single": single || x.Del, "oversize": false})
 			if err == nil {
 				accLogs = append(accLogs, lo)
 			}
@@ -365,6 +366,43 @@ func (r *runner) readBack(data []byte) map[string]interface{} {
 				b, _ := json.Marshal(want[i])
 				if string(a) != string(b) {
 					return fmt.Errorf("ref %d kept from a reused record changed: %s, was %s", i, a, b)
+				}
+			}
+			// two iterators interleaved on the same reader: a ref walk, in whose middle logs are sought and read
+			{
+				want := scan["refs"].([]refOut)
+				it1, err := rd.SeekRef("")
+				if err != nil {
+					return err
+				}
+				got := []refOut{}
+				for n := 0; ; n++ {
+					var rr reftable.RefRecord
+					ok, err := it1.NextRef(&rr)
+					if err != nil {
+						return fmt.Errorf("ref walk interleaved with log reads: %v", err)
+					}
+					if !ok {
+						break
+					}
+					got = append(got, r.refFromRec(&rr))
+					if n%3 == 0 {
+						if it2, err := rd.SeekLog("", math.MaxUint64); err == nil {
+							var lr reftable.LogRecord
+							it2.NextLog(&lr)
+							it2.NextLog(&lr)
+						}
+						reftable.ReadLogAt(rd, rr.RefName, math.MaxUint64)
+						reftable.ReadRef(rd, rr.RefName)
+					}
+					if len(got) > len(want)+5 {
+						break
+					}
+				}
+				a, _ := json.Marshal(got)
+				b, _ := json.Marshal(want)
+				if string(a) != string(b) {
+					return fmt.Errorf("a ref walk interleaved with log reads on the same reader returns %d refs / different records (plain scan: %d)", len(got), len(want))
 				}
 			}
 			it, err = rd.SeekLog("", math.MaxUint64)
